@@ -1014,7 +1014,7 @@ func main() {
 			}
 			one(w, true, "witness")
 		}
-		nModel, nOracle := c.Scale(450, 9000), c.Scale(30000, 600000)
+		nModel, nOracle := c.Scale(390, 7990), c.Scale(24000, 300000)
 		for i := 0; i < nModel; i++ {
 			one(generate(c.Rng.Fork(), i%3 == 2), true, "model")
 		}
